@@ -67,7 +67,7 @@ class Ctx(object):
 
     def finish(self):
         self._w({'t': 'stat', 'counters': self.counters,
-                 'sets': {k: sorted(v)[:5000] for k, v in self.sets.items()}})
+                 'sets': {k: sorted(v)[:20000] for k, v in self.sets.items()}})
         self._w({'t': 'done'})
         self._fd.close()
 
